@@ -67,6 +67,7 @@ class C06(Machine):
                 pb.step(c, k="call", obj=so, name="enc", args=[B(rbytes(rng, rng.choice(PLENS)))], kw={}, tag="sib_enc")
         plan = pb.finish(rng)
         plan["meta"]["shared"] = shared
+        plan["recheck_results"] = True
         plan["fp"] = objs[:1]
         return plan
 
@@ -124,6 +125,12 @@ class C06(Machine):
                 vs.append(vio("stream_output", "RC4", s["name"], s["id"],
                               {"got": _cut(e["out"]), "expected": _cut(exp), "bytes_before": st["before"], "op_index": st["ops"]}))
                 broken.add(o)
+        fin = by_id.get(-1)
+        if fin and fin.get("changed"):
+            sid = fin["changed"][0]
+            stp = [s for s in plan["steps"] if s["id"] == sid]
+            if stp and stp[0]["obj"] not in broken:
+                vs.append(vio("returned_value_changed_later", "RC4", stp[0]["name"], sid, {"steps_whose_result_changed": fin["changed"][:5]}))
         for o, st in streams.items():
             if st["ops"] >= 2:
                 nontrivial = True
